@@ -22,7 +22,7 @@ PROP = {
     "assumptions": [],
 }
 
-TARGETS = ["absent", "existing-tdf", "existing-non-tdf", "existing-empty", "directory", "existing-tdf-with-blocks"]
+TARGETS = ["absent", "existing-tdf", "existing-non-tdf", "existing-empty", "directory", "existing-tdf-with-blocks", "symlink-to-file"]
 
 
 def make_target(d, kind, seed):
@@ -32,6 +32,13 @@ def make_target(d, kind, seed):
     if kind == "directory":
         os.mkdir(p)
         return p, "dir"
+    if kind == "symlink-to-file":
+        real = os.path.join(d, "real-target.bin")
+        data = container.opaque_payload(seed, 100 + seed % 900)
+        with open(real, "wb") as f:
+            f.write(data)
+        os.symlink(real, p)
+        return p, data
     if kind == "existing-empty":
         data = b""
     elif kind == "existing-non-tdf":
@@ -47,7 +54,14 @@ def make_target(d, kind, seed):
 
 
 def as_path(p, kind):
+    if kind.startswith("relative"):
+        os.chdir(os.path.dirname(p))
+        p = os.path.basename(p) if kind.endswith("plain") else os.path.join(".", os.path.basename(p))
+        return Path(p) if "Path" in kind else p
     return Path(p) if kind == "Path" else p
+
+
+PATH_KINDS = ["str", "Path", "str", "Path", "relative-plain", "relative-dot-Path"]
 
 
 def check_fresh_container(ctx, what, data):
@@ -68,13 +82,14 @@ def check_fresh_container(ctx, what, data):
 
 
 def new_strategy(tier):
-    return st.fixed_dictionaries({"target": st.sampled_from(TARGETS), "path": st.sampled_from(["str", "Path"]), "seed": st.integers(0, 10 ** 6)})
+    return st.fixed_dictionaries({"target": st.sampled_from(TARGETS), "path": st.sampled_from(PATH_KINDS), "seed": st.integers(0, 10 ** 6)})
 
 
 def run_new(ctx, case):
     from basictdf import Tdf
 
     d = env.fresh_dir()
+    cwd0 = os.getcwd()
     try:
         p, before = make_target(d, case["target"], case["seed"])
         try:
@@ -101,6 +116,7 @@ def run_new(ctx, case):
             elif open(p, "rb").read() != before:
                 ctx.fail(f"new/{case['target']}/clobbered", f"Tdf.new changed the bytes of the existing {case['target']} ({len(before)} -> {os.path.getsize(p)} bytes)")
     finally:
+        os.chdir(cwd0)
         env.rmdir(d)
     ctx.case(case, case["target"] != "absent", labels=["new:" + case["target"], "path=" + case["path"]])
 
@@ -108,7 +124,7 @@ def run_new(ctx, case):
 def copy_strategy(tier):
     op = st.fixed_dictionaries({"side": st.sampled_from(["copy", "original"]), "op": st.sampled_from(["add", "remove", "replace"]), "k": st.integers(0, 20),
                                 "block": container.block_ops_payload()})
-    return st.fixed_dictionaries({"target": st.sampled_from(["absent", "absent", "absent"] + TARGETS[1:]), "path": st.sampled_from(["str", "Path"]),
+    return st.fixed_dictionaries({"target": st.sampled_from(["absent", "absent", "absent"] + TARGETS[1:]), "path": st.sampled_from(PATH_KINDS),
                                   "seed": st.integers(0, 10 ** 6), "source": container.init_images(), "followup": st.lists(op, max_size=5),
                                   "source_via_library": st.booleans()})
 
@@ -118,6 +134,7 @@ def run_copy(ctx, case):
     from basictdf.tdfBlock import BlockType
 
     d = env.fresh_dir()
+    cwd0 = os.getcwd()
     try:
         it = container.ContainerInterp(ctx, case["source"], set())  # builds the source file (model only, no invariant group)
         try:
@@ -155,7 +172,7 @@ def run_copy(ctx, case):
                 ctx.fail("copy/not-identical", "the copy is not byte-identical to the original")
             if os.path.samefile(p, src_path):
                 ctx.fail("copy/same-file", "copy and original are the same file (same inode)")
-            if str(cp.file_path) != str(p):
+            if os.path.realpath(os.path.join(os.getcwd(), str(cp.file_path))) != os.path.realpath(p):
                 ctx.fail("copy/returned-handle", f"Tdf.copy returned an object for {cp.file_path}, not for the copy {p}")
             # independence: mutate one, the other must not move
             files = {"copy": p, "original": src_path}
@@ -192,14 +209,16 @@ def run_copy(ctx, case):
         finally:
             it.close()
     finally:
+        os.chdir(cwd0)
         env.rmdir(d)
 
 
 def invalid_strategy(tier):
     sig = reftdf.SIGNATURE
     return st.fixed_dictionaries({
-        "kind": st.sampled_from(["missing", "empty", "short-random", "random", "partial-signature", "signature-flipped-bit", "text", "zeros"]),
-        "seed": st.integers(0, 10 ** 6), "n": st.integers(1, 15), "path": st.sampled_from(["str", "Path"])})
+        "kind": st.sampled_from(["missing", "empty", "short-random", "random", "partial-signature", "signature-flipped-bit", "text", "zeros",
+                                 "signature-at-offset", "signature-reversed"]),
+        "seed": st.integers(0, 10 ** 6), "n": st.integers(1, 15), "path": st.sampled_from(PATH_KINDS)})
 
 
 def run_invalid(ctx, case):
@@ -207,6 +226,7 @@ def run_invalid(ctx, case):
     from basictdf.tdfBlock import BlockType
 
     d = env.fresh_dir()
+    cwd0 = os.getcwd()
     try:
         p = os.path.join(d, "x.tdf")
         kind, seed = case["kind"], case["seed"]
@@ -226,6 +246,12 @@ def run_invalid(ctx, case):
         elif kind == "signature-flipped-bit":
             i = seed % 16
             data = valid[:i] + bytes([valid[i] ^ (1 << (seed // 16 % 8))]) + valid[i + 1:]
+        elif kind == "signature-at-offset":
+            data = container.opaque_payload(seed, case["n"]) + valid
+            if data[:16] == reftdf.SIGNATURE:
+                data = b"\x00" + data
+        elif kind == "signature-reversed":
+            data = reftdf.SIGNATURE[::-1] + valid[16:]
         elif kind == "text":
             data = b"This is not a TDF file\n" * 200
         else:
@@ -263,6 +289,7 @@ def run_invalid(ctx, case):
             if open(p, "rb").read() != data:
                 ctx.fail(f"open/{kind}/file-changed", "reading an invalid file changed it")
     finally:
+        os.chdir(cwd0)
         env.rmdir(d)
     ctx.case(case, True, labels=["invalid:" + case["kind"]])
 
